@@ -241,7 +241,9 @@ class DerivedLevel(Level):
             levels = sample[f]
             for j in range(window.width):
                 idx = i+(j-(window.width-1))*sustain_count
-                if idx >= 0:
+                # A derived factor in `window.factors` may have no level for an early
+                # trial, which shows up as `None` or as an empty placeholder level
+                if idx >= 0 and levels[idx] is not None and levels[idx].name != "":
                     args.append(levels[idx].name)
                 else:
                     args.append(None)
